@@ -232,6 +232,9 @@ def coerce(ip, v: V, t):
     if t[0] == "opaque":
         if isinstance(v, VOpaque):
             return v.term
+        from .values import VMethod as _VM
+        if isinstance(v, _VM) and isinstance(v.obj, VObj) and not v.obj.symbolic:
+            return ip.func_token(v)
         if isinstance(v, VCoro) or isinstance(v, VFunc) or isinstance(v, VObj) or isinstance(v, (VList, VDict, VTuple)):
             # storing a structured value into an opaque container: keep an opaque token for it
             tok = ip.st.fresh("tok", Opaque)
